@@ -77,6 +77,10 @@ type Config struct {
 
 	// TTL is the time that key written with ttl will live
 	TTL time.Duration
+
+	// EventsPrefix is the raw key prefix (<prefix>/events/) of the keys that are written with ttl;
+	// only keys under it are expired by compaction. Empty means that no key expires.
+	EventsPrefix []byte
 }
 
 // Range implements Scanner interface
@@ -278,6 +282,7 @@ func (r *scanner) scan(ctx context.Context, start []byte, end []byte, revision u
 				compact:         compact,
 				tombstone:       r.config.Tombstone,
 				timeoutRevision: timeoutRevision,
+				eventsPrefix:    r.config.EventsPrefix,
 			}, store, r.coder, r.metricCli)
 
 			// run worker
@@ -340,6 +345,9 @@ type workerConfig struct {
 
 	// timeoutRevision indicate the revision that kvs with ttl were updated at is timeout
 	timeoutRevision uint64
+
+	// eventsPrefix is the raw key prefix of the kvs with ttl
+	eventsPrefix []byte
 }
 
 func newWorker(conf workerConfig, store storage.KvStorage, coder coder.Coder, metricCli metrics.Metrics) *worker {
@@ -574,7 +582,7 @@ func (w *worker) compactIfExpired(iter storage.Iter, rawKey []byte, revision uin
 		w.timeoutRevision == 0 {
 		return false, nil
 	}
-	if bytes.Contains(rawKey, []byte("/events/")) {
+	if len(w.eventsPrefix) > 0 && bytes.HasPrefix(rawKey, w.eventsPrefix) {
 		//? consider two type of compact now:
 		//? 1. delete directly from storage engine (use this one right now)
 		//? 2. set tombstone and delete util next compaction loop
